@@ -11,7 +11,7 @@ REPLAY_DIR = os.path.join(VERIF, 'replays')
 REPLAY_CRATE = os.path.join(HERE, 'replay')
 
 
-def build_replay_tool():
+def build_replay_tool(profile='debug'):
     """Build the replay/search tool against the tree under verification.  For /repo the crate in vf/replay is
     used as is; for a scratch tree (VF_REPO, self-test) a copy with the path dependency rewritten is built."""
     env = dict(os.environ)
@@ -24,15 +24,16 @@ def build_replay_tool():
             subprocess.check_call(['rsync', '-a', '--exclude', 'target', REPLAY_CRATE + '/', crate + '/'])
             t = open(os.path.join(crate, 'Cargo.toml')).read().replace('path = "/repo"', 'path = "%s"' % repo)
             open(os.path.join(crate, 'Cargo.toml'), 'w').write(t)
-    p = subprocess.run(['cargo', 'build', '--offline', '--quiet'], cwd=crate, capture_output=True, text=True, env=env)
-    exe = os.path.join(crate, 'target', 'debug', 'vf_replay')
+    p = subprocess.run(['cargo', 'build', '--offline', '--quiet'] + (['--release'] if profile == 'release' else []),
+                       cwd=crate, capture_output=True, text=True, env=env)
+    exe = os.path.join(crate, 'target', profile, 'vf_replay')
     if p.returncode != 0 or not os.path.exists(exe):
         return None, p.stderr[-2000:]
     return exe, ''
 
 
-def run_replay(args):
-    exe, err = build_replay_tool()
+def run_replay(args, profile='debug'):
+    exe, err = build_replay_tool(profile)
     if not exe:
         return {'error': 'replay tool did not build against the current tree: ' + err}
     try:
